@@ -124,11 +124,9 @@ def isDigitA (c : Char) : Bool := '0' ≤ c && c ≤ '9'
 def digitsVal (ds : Str) : Nat := ds.foldl (fun n c => 10 * n + (c.toNat - 48)) 0
 
 /-- `_q_value_re.fullmatch(s)` (`-?\d+(\.\d+)?`, re.ASCII), then `float`, then the range check
-`0 <= q <= 1`. `none` = the item is ignored. `-0`, `-0.0` pass (they are not `< 0`). -/
-def parseQ (s : Str) : Option Q :=
-  let (neg, body) := match s with
-    | '-' :: t => (true, t)
-    | _ => (false, s)
+`0 <= q <= 1`. `none` = the item is ignored. `-0`, `-0.0` pass (they are not `< 0`).
+`parseQBody` works on the text after the optional minus sign. -/
+def parseQBody (neg : Bool) (body : Str) : Option Q :=
   let ip := body.takeWhile isDigitA
   let rest := body.dropWhile isDigitA
   if ip.isEmpty then none else
@@ -143,6 +141,10 @@ def parseQ (s : Str) : Option Q :=
     let q : Q := ⟨digitsVal (ip ++ fr), fr.length⟩
     if neg && q.num != 0 then none
     else if q.le Q.one then some q else none
+
+def parseQ (s : Str) : Option Q :=
+  let neg : Bool := s.head? == some '-'
+  parseQBody neg (if neg then s.drop 1 else s)
 
 /-! ## specificity orders -/
 
